@@ -355,7 +355,8 @@ qb_rb_space_free(struct qb_ringbuffer_s * rb)
 	} else if (write_size < read_size) {
 		space_free = (read_size - write_size) - 1;
 	} else {
-		if (rb->notifier.q_len_fn && rb->notifier.q_len_fn(rb->notifier.instance) > 0) {
+		if (!(rb->flags & QB_RB_FLAG_OVERWRITE) &&
+		    rb->notifier.q_len_fn && rb->notifier.q_len_fn(rb->notifier.instance) > 0) {
 			space_free = 0;
 		} else {
 			space_free = rb->shared_hdr->word_size;
